@@ -25,6 +25,18 @@ CHECKS = {
          "Kernel-checked theorems state the whole operator table (arithmetic, ordering, equality/in, boolean cast, concatenation, ranges, lazy conditional) for all operand values of the model; "
          "the model is tied to /repo on every run by regenerated facts (error enum, maxRangeItems) and by executing model and implementation on the exhaustive operator x kind x kind table, random IEEE bit patterns and random nestings.",
          "DESIGN.md section 6 C03", ""),
+ "C13": ("Lean 4 theorems: lexicographic comparator theory, order-by = stable sort (permutation, ordered, stable) for every length and term count; key typing errors; $sort merge = core merge; + differential correspondence and a direct stability check on Go's output",
+         "Kernel-checked: the evaluator's less function is the lexicographic product of lawful per-term comparators (numbers, strings, absent-last, per-term direction) for keys that passed buildSortInfo's type bookkeeping, hence the stable merge sort yields a sorted, stable permutation (relativised use of the core mergeSort lemmas); mixed/other-typed keys are errors; the repo's merge is List.merge and a permutation for any comparator. "
+         "Tied to /repo by arrays of length 0..8 and 13..200 with many ties (stability is only observable above 12 items), all direction combinations, computed keys, comparators; output checked both against the model and directly for permutation/order/tie order.",
+         "DESIGN.md section 6 C13", "sort.SliceStable is modelled by List.mergeSort (contract: stable). Float order laws (LawfulNum) are assumed for doubles without NaN and proved for Int."),
+ "C14": ("Lean 4 theorems: grouping is a partition (invariant by induction over the items), duplicate/illegal key errors, $keys/$spread/$merge/$lookup laws incl. merge(spread o) = o; + differential correspondence",
+         "Kernel-checked: folding any number of items yields one group per distinct key holding exactly the positions with that key in input order (each item in exactly one group, once); the evaluator's monadic loop equals that fold; duplicate keys across pairs and non-string keys are errors; $keys is duplicate-free and complete, $spread gives singletons, $merge lets later objects win and merge(spread o) = o for objects with unique keys, $lookup is field selection. "
+         "Tied to /repo by generated groupings (collisions, absent/non-string keys, 1..3 pairs, aggregates and nested constructors as values) and object-function programs with identities evaluated inside JSONata.",
+         "DESIGN.md section 6 C14", "Member order of Go maps is unspecified: results are compared as unordered objects and order-revealing programs sort their output. An empty/absent grouping context (Go evaluates values against a one-slot array holding nil) is outside the generator."),
+ "C15": ("Lean 4 theorems: $map/$filter/$reduce = their list definitions for any function argument and length, $distinct first-occurrence laws, $zip length, $shuffle (inside-out Fisher-Yates with explicit draws) is a permutation, aggregate rules; + differential correspondence",
+         "Kernel-checked: map/filter/reduce loops equal filterMap/filter/foldl with (value, index, array) trimmed to the clamped arity; reduce requires arity two; $distinct returns a duplicate-free sub-list covering the input and keeps 1/\"1\"/{a:1}/{a:\"1\"} apart; the shuffle algorithm returns a permutation for all draws; aggregate empty/non-numeric rules. "
+         "Tied to /repo by exhaustive arrays of length <= 3 over a 5-value domain and random arrays up to length 8 with function arguments of arity 0..3, built-ins, partials and chains; $shuffle is checked as a permutation relation on Go's output.",
+         "DESIGN.md section 6 C15", "math/rand is a parameter (explicit draws)."),
 }
 
 NOT_YET = {}
